@@ -190,6 +190,21 @@ def plan_C10(ck):
               nontrivial=cf.nontrivial_world, timeout_ms=60000)
     if q and ck.violations:
         return
+    # the same kind of cases with every interleaving decision taken by the harness' scheduler
+    stats = os.path.join(ck.workdir, "ctl-stats.ndjson")
+    ck.traces(cf.controlled(cf.parallel_cases(ck.seed + 310, 40 if q else 1200, 4, "C10ctl"), ck.seed + 311), ["C10"],
+              tag="c10ctl", nontrivial=cf.nontrivial_world, timeout_ms=120000, env={"FSL_CTL_STATS": stats})
+    try:
+        st = [json.loads(l) for l in open(stats)]
+    except OSError:
+        st = []
+    ck.ev.cov["controlled_executions"] = len(st)
+    ck.ev.cov["controlled_schedule_points"] = sum(x["grants"] for x in st)
+    ck.ev.cov["controlled_points_inside_work_items"] = sum(x["inner"] for x in st)
+    if not st or sum(x["inner"] for x in st) == 0:
+        raise vlib.MachineryError("controlled flow executions recorded no schedule point inside a work item (hooks not compiled in?)")
+    if q and ck.violations:
+        return
     # happens-before observer on the grids whose neighbour look-up goes through a scratch buffer
     ck.traces(cf.parallel_cases(ck.seed + 210, 24 if q else 300, 4, "C10tsan", kinds=["raster_nc", "mesh"]), ["C10"],
               tag="c10tsan", flavor="tsan", build=TSAN_FLOW_BUILD, env=TSAN_ENV, timeout_ms=120000, nproc=8,
